@@ -209,7 +209,7 @@ def gen_cut(rng):
 
 
 def gen(rng, tier):
-    n = {"quick": 1, "thorough": 12, "search": 4}[tier]
+    n = {"quick": 3, "thorough": 24, "search": 4}[tier]
     plan = [("burst", 14), ("burstbig", 6), ("slow", 6), ("silence", 10), ("blocked", 22), ("small", 8), ("cut", 18)]
     if tier == "search":
         plan = [("blocked", 40), ("cut", 25), ("burstbig", 10), ("silence", 10), ("small", 10)]
